@@ -200,6 +200,9 @@ type ManifestStyle struct {
 	EscapeSolidus bool
 	// EscapeUnicode writes every non-ASCII rune of the key name as \uXXXX.
 	EscapeUnicode bool
+	// EmptyAsSegment encodes an EMPTY message as one sealed empty last segment (16 bytes of tag) instead of no segment:
+	// the README allows both ("Segments must never be empty, unless the entire file is empty").
+	EmptyAsSegment bool
 }
 
 func jsonString(s string, st ManifestStyle) string {
@@ -506,6 +509,9 @@ func Encode(plain, fileKey []byte, m Manifest, st ManifestStyle) []byte {
 		panic("refenc: bad file key or nonce prefix length")
 	}
 	doc := Header(fileKey, EncodeManifest(m, st))
+	if len(plain) == 0 && st.EmptyAsSegment {
+		return append(doc, SealSegment(m.Cipher, fileKey, m.NoncePrefix, 0, true, nil)...)
+	}
 	for _, s := range SealAll(m.Cipher, fileKey, m.NoncePrefix, plain) {
 		doc = append(doc, s...)
 	}
